@@ -34,6 +34,10 @@ pub enum Param {
     SimplePosAbsent(bool),
     RegexPosAbsent(bool),
     UnkPosAbsent(bool),
+    /// POS list of the wrong length in a provider's JSON settings (kind 0: a one-component prefix
+    /// of an existing POS, 1: empty list, 2: an existing POS plus a seventh component); bool = allow
+    SimplePosShape(u8, bool),
+    RegexPosShape(u8, bool),
 }
 
 pub struct RectSpace {
@@ -55,13 +59,27 @@ struct Cfg {
     simple_pos: Option<bool>,
     regex_pos: Option<bool>,
     unk_pos: Option<bool>,
+    simple_shape: Option<(u8, bool)>,
+    regex_shape: Option<(u8, bool)>,
+}
+
+fn shaped_pos(kind: u8) -> Vec<&'static str> {
+    match kind {
+        0 => vec![P_NOUN[0]],
+        1 => vec![],
+        _ => {
+            let mut v = P_NOUN.to_vec();
+            v.push("*");
+            v
+        }
+    }
 }
 
 const P_ABSENT: [&str; 6] = ["無い", "品詞", "*", "*", "*", "*"];
 
 impl RectSpace {
     fn cfg_of(&self, s: &[u16]) -> Cfg {
-        let mut c = Cfg { simple: (0, 0, 100), regex: (0, 0, 200), unk: (0, 0, 300), inhibit: (0, 0), simple_pos: None, regex_pos: None, unk_pos: None };
+        let mut c = Cfg { simple: (0, 0, 100), regex: (0, 0, 200), unk: (0, 0, 300), inhibit: (0, 0), simple_pos: None, regex_pos: None, unk_pos: None, simple_shape: None, regex_shape: None };
         for &i in s {
             let (p, v) = &self.devs[i as usize];
             match p {
@@ -79,7 +97,16 @@ impl RectSpace {
                 Param::SimplePosAbsent(a) => c.simple_pos = Some(*a),
                 Param::RegexPosAbsent(a) => c.regex_pos = Some(*a),
                 Param::UnkPosAbsent(a) => c.unk_pos = Some(*a),
+                Param::SimplePosShape(k, a) => c.simple_shape = Some((*k, *a)),
+                Param::RegexPosShape(k, a) => c.regex_shape = Some((*k, *a)),
             }
+        }
+        // a shape deviation replaces the provider's POS list altogether
+        if c.simple_shape.is_some() {
+            c.simple_pos = None;
+        }
+        if c.regex_shape.is_some() {
+            c.regex_pos = None;
         }
         c
     }
@@ -108,6 +135,12 @@ impl RectSpace {
         }
         // providers are set up in the order regex, MeCab, simple; a part of speech registered by an
         // earlier provider (userPOS allow) exists for the later ones
+        // a list that has not exactly six components is not a part of speech of the dictionary
+        for (name, sh) in [("RegexOov", c.regex_shape), ("SimpleOov", c.simple_shape)] {
+            if let Some((k, false)) = sh {
+                return Err(format!("{} part of speech {:?} is not in the dictionary and user-defined POS are not allowed", name, shaped_pos(k)));
+            }
+        }
         let mut registered = false;
         for (name, p) in [("RegexOov", c.regex_pos), ("unk.def", c.unk_pos), ("SimpleOov", c.simple_pos)] {
             match p {
@@ -121,6 +154,12 @@ impl RectSpace {
         Ok(())
     }
 
+    /// with user-defined POS allowed, a list of the wrong length is outside the statement: the
+    /// verdict is not compared (no panic, and a successful load must still analyse)
+    fn undetermined(&self, c: &Cfg) -> bool {
+        matches!(c.regex_shape, Some((_, true))) || matches!(c.simple_shape, Some((_, true)))
+    }
+
     fn plugins_of(&self, c: &Cfg) -> (Value, String) {
         let pos_of_opt = |p: Option<bool>| -> (Vec<&str>, Option<&str>) {
             match p {
@@ -129,12 +168,20 @@ impl RectSpace {
                 Some(false) => (P_ABSENT.to_vec(), Some("forbid")),
             }
         };
-        let (sp, sa) = pos_of_opt(c.simple_pos);
+        let (mut sp, mut sa) = pos_of_opt(c.simple_pos);
+        if let Some((k, a)) = c.simple_shape {
+            sp = shaped_pos(k);
+            sa = Some(if a { "allow" } else { "forbid" });
+        }
         let mut simple = json!({"class": "com.worksap.nlp.sudachi.SimpleOovPlugin", "oovPOS": sp, "leftId": c.simple.0, "rightId": c.simple.1, "cost": c.simple.2});
         if let Some(a) = sa {
             simple["userPOS"] = json!(a);
         }
-        let (rp, ra) = pos_of_opt(c.regex_pos);
+        let (mut rp, mut ra) = pos_of_opt(c.regex_pos);
+        if let Some((k, a)) = c.regex_shape {
+            rp = shaped_pos(k);
+            ra = Some(if a { "allow" } else { "forbid" });
+        }
         let mut regex = json!({"class": "com.worksap.nlp.sudachi.RegexOovProvider", "oovPOS": rp, "leftId": c.regex.0, "rightId": c.regex.1, "cost": c.regex.2, "regex": "[a-z0-9]+", "boundaries": "relaxed"});
         if let Some(a) = ra {
             regex["userPOS"] = json!(a);
@@ -186,6 +233,7 @@ impl Space for RectSpace {
         o.evaluations = 1;
         let c = self.cfg_of(s);
         let verdict = self.in_range(&c);
+        let undetermined = verdict.is_ok() && self.undetermined(&c);
         let (plugins, unk) = self.plugins_of(&c);
         // every state writes its own unk.def (file name unique per thread)
         let tid = format!("{:?}", std::thread::current().id()).replace(|ch: char| !ch.is_ascii_digit(), "");
@@ -193,13 +241,13 @@ impl Space for RectSpace {
         std::fs::write(self.dir.join(&unk_name), &unk).expect("write unk.def");
         let mut plugins = plugins;
         plugins["oovProviderPlugin"][1]["unkDef"] = json!(unk_name);
-        let ctx = format!("[matrix {}x{}] simple={:?} regex={:?} unk.def={:?} inhibitPair={:?} pos(simple,regex,unk)={:?}", self.n, self.m, c.simple, c.regex, c.unk, c.inhibit, (c.simple_pos, c.regex_pos, c.unk_pos));
+        let ctx = format!("[matrix {}x{}] simple={:?} regex={:?} unk.def={:?} inhibitPair={:?} pos(simple,regex,unk)={:?} pos-shape(simple,regex)={:?}", self.n, self.m, c.simple, c.regex, c.unk, c.inhibit, (c.simple_pos, c.regex_pos, c.unk_pos), (c.simple_shape, c.regex_shape));
         let r = catch(|| load(&self.dir, &plugins, self.system.clone(), vec![]));
         match r {
             Err(p) => o.fail(Failure::panic(&format!("{} loading", ctx), &p)),
             Ok(Err(_)) => {
                 o.count("rejected", 1);
-                if verdict.is_ok() {
+                if verdict.is_ok() && !undetermined {
                     o.fail(Failure::new("valid-configuration-rejected", format!("{}: every value is in range but loading failed", ctx)));
                 }
                 o.nontrivial = true;
@@ -286,13 +334,17 @@ fn rect_space(n: usize, m: usize, max_devs: usize) -> RectSpace {
         devs.push((Param::SimplePosAbsent(a), 0));
         devs.push((Param::RegexPosAbsent(a), 0));
         devs.push((Param::UnkPosAbsent(a), 0));
+        for k in 0..3u8 {
+            devs.push((Param::SimplePosShape(k, a), 0));
+            devs.push((Param::RegexPosShape(k, a), 0));
+        }
     }
     RectSpace { n, m, dir, system, matrix: spec.matrix.clone(), devs, max_devs }
 }
 
 pub fn main(tier: Tier, replay: Option<String>) -> i32 {
     let mut rep = Report::new("C20", "model_checking", tier);
-    rep.rule = "states = sets of parameter deviations (baseline, every single deviation, every pair on different parameters; triples for the square shapes in the thorough tier) of a configuration with RegexOovProvider + MeCabOovPlugin + SimpleOovPlugin + InhibitConnectionPlugin; values {-1,0,n-1,n,n+1,m-1,m,m+1,32767,32768,65535,65536,-32768,-32769} for every leftId / rightId / cost / unk.def field / inhibitPair member, POS absent x userPOS allow/forbid; matrices 1x1, 3x3, 2x3, 3x2. Loading must fail exactly when the reference says a value is out of range; after a successful load only the inhibited cell differs from the matrix text and the probe texts analyse without panic (debug assertions on); non-trivial = the configuration was rejected".into();
+    rep.rule = "states = sets of parameter deviations (baseline, every single deviation, every pair on different parameters; triples for the square shapes in the thorough tier) of a configuration with RegexOovProvider + MeCabOovPlugin + SimpleOovPlugin + InhibitConnectionPlugin; values {-1,0,n-1,n,n+1,m-1,m,m+1,32767,32768,65535,65536,-32768,-32769} for every leftId / rightId / cost / unk.def field / inhibitPair member, POS absent x userPOS allow/forbid, POS lists of the wrong length (one component, empty, seven) in the JSON providers x allow/forbid; matrices 1x1, 3x3, 2x3, 3x2. Loading must fail exactly when the reference says a value is out of range; after a successful load only the inhibited cell differs from the matrix text and the probe texts analyse without panic (debug assertions on); non-trivial = the configuration was rejected".into();
     rep.assumptions = vec!["'indexes an existing row or column' is decided by the dimension the value is used for in ConnectionMatrix::cost(prev.right_id, next.left_id): a left id is bounded by the number of columns, a right id by the number of rows".into()];
     let mut jobs: Vec<Box<dyn AnyJob>> = Vec::new();
     for (n, m) in [(3usize, 3usize), (1, 1), (2, 3), (3, 2)] {
